@@ -171,3 +171,53 @@ func forcedScns(r *rand.Rand) []*Scn {
 			InFn: []InFn{{T: 0, Run: 0, Op: "q", Target: 0}, {T: 0, Run: 1, Op: "s", Target: 0, Arg: 30, Late: true}}},
 	}
 }
+
+// misuseScn: the error paths and the glue — calls on cancelled and inert tasks, Schedule(zero) without a
+// schedule entry, zero / tiny max delays, double cancels, times in the past, calls on finished tasks.
+func misuseScn(r *rand.Rand) *Scn {
+	s := &Scn{Kind: "misuse", M: 1, N: 2 + r.Intn(3)}
+	for i := 0; i < s.N; i++ {
+		s.Dur = append(s.Dur, []int{pick(r, 0, 1, 5)})
+	}
+	if r.Intn(2) == 0 {
+		s.NilMod = []int{r.Intn(s.N)}
+	}
+	at := 0
+	add := func(op string, t, arg int) {
+		at += r.Intn(4)
+		s.Steps = append(s.Steps, Step{At: at, Th: 0, Op: op, T: t, Arg: arg})
+	}
+	for i := 0; i < 4+r.Intn(8); i++ {
+		t := r.Intn(s.N)
+		switch r.Intn(9) {
+		case 0: // cancel, then every kind of submission
+			add("c", t, 0)
+			add(string("qpas"[r.Intn(4)]), t, 10)
+		case 1:
+			add("z", t, 0)
+		case 2:
+			add("d", t, pick(r, 0, 1))
+			add(string("qpa"[r.Intn(3)]), t, 0)
+		case 3:
+			add("s", t, pick(r, -1000, -1, 0))
+		case 4:
+			add("c", t, 0)
+			add("c", t, 0)
+		case 5:
+			add("s", t, 20)
+			add("c", t, 0)
+			add("s", t, pick(r, 5, 200))
+		case 6:
+			add("q", t, 0)
+			add("z", t, 0)
+			add("s", t, 15)
+		case 7:
+			add("a", t, 0)
+			add("a", t, 0)
+			add("p", t, 0)
+		default:
+			add(string("qpasdzc"[r.Intn(7)]), t, pick(r, 0, 3, 30))
+		}
+	}
+	return s
+}
